@@ -102,6 +102,35 @@ pub mod p {
     pub struct Inner { pub a: u32, pub d: DeepButCopy }
     pub fn run() { drive(&vec![Inner { a: 1, d: DeepButCopy { a: 2 } }]) }
 }
+// zero-copy enums: the bad field sits in different variant positions
+impl MaxSizeOf for DeepButCopy { fn max_size_of() -> usize { 4 } }
+#[cfg(feature = "p_enum_deep_before_tuple")]
+pub mod p {
+    use super::*;
+    #[derive(Epserde, Clone, Copy)]
+    #[repr(C)]
+    #[zero_copy]
+    pub enum P { A, B(DeepButCopy), C(u64) }
+    pub fn run() { drive(&P::B(DeepButCopy { a: 2 })) }
+}
+#[cfg(feature = "p_enum_deep_last")]
+pub mod p {
+    use super::*;
+    #[derive(Epserde, Clone, Copy)]
+    #[repr(C)]
+    #[zero_copy]
+    pub enum P { A, C(u64), B(DeepButCopy) }
+    pub fn run() { drive(&P::B(DeepButCopy { a: 2 })) }
+}
+#[cfg(feature = "p_enum_deep_struct_variant")]
+pub mod p {
+    use super::*;
+    #[derive(Epserde, Clone, Copy)]
+    #[repr(C)]
+    #[zero_copy]
+    pub enum P { A, B { d: DeepButCopy }, C(u64), D { x: u8 } }
+    pub fn run() { drive(&P::B { d: DeepButCopy { a: 2 } }) }
+}
 /// Control: a *valid* zero-copy definition must compile and reach the writer
 /// (so that "rejected" is not simply "nothing compiles").
 #[cfg(feature = "ok_control")]
@@ -115,7 +144,8 @@ pub mod p {
 }
 
 #[cfg(any(feature = "p_deep_field", feature = "p_ref_field", feature = "p_vec_field", feature = "p_string_field",
-          feature = "p_boxslice_field", feature = "p_no_repr_c", feature = "p_both_attrs", feature = "p_nested_bad", feature = "ok_control"))]
+          feature = "p_boxslice_field", feature = "p_no_repr_c", feature = "p_both_attrs", feature = "p_nested_bad", feature = "ok_control",
+          feature = "p_enum_deep_before_tuple", feature = "p_enum_deep_last", feature = "p_enum_deep_struct_variant"))]
 #[cfg_attr(kani, kani::proof)]
 #[cfg_attr(kani, kani::unwind(5))]
 pub fn probe() { p::run() }
